@@ -21,7 +21,7 @@ DECODER = [U_ + n for n in ("_read_exact", "_read_int4", "_read_byte_string", "_
                             "load_buildtuple", "load_set", "load_frozenset", "load_stop", "load_channel", "load")]
 
 VALUES = ["None", "True", "False", "0", "-1", "2**31-1", "-2**31", "2**31", "-2**31-1", "10**30", "-10**30", "2**64", "0.0", "-0.0", "1.5", "inf", "-inf", "nan", "snan",
-          "complex(1,-2)", "complex(nan, inf)", "complex(-0.0, 0.0)", "complex(0.0, -0.0)", "complex(-0.0, -0.0)", "complex(-inf, 5e-324)", "complex(1e308, -inf)", "b''", "b'\\x00\\xff'", "''", "'é\\u20ac\\U0001F600'", "[]", "()", "{}", "set()", "frozenset()",
+          "complex(1,-2)", "complex(nan, inf)", "complex(-0.0, 0.0)", "complex(0.0, -0.0)", "complex(-0.0, -0.0)", "complex(-inf, 5e-324)", "complex(1e308, -inf)", "b''", "b'\\x00\\xff'", "''", "'é\\u20ac\\U0001F600'", "'\\ufeffabc'", "'\\ufeff'", "{'\\ufeffa': 1, 'a': 2}", "[]", "()", "{}", "set()", "frozenset()",
           "[1,[2,[3,[4]]]]", "(1,(2,),())", "{1:'a', 'b':[1,2], (1,2):{3:4}, frozenset([1]):None}", "{True:1, 2:False}", "[True, 1, 1.0]", "{'z':1,'a':2,'m':3}",
           "[None]*5", "(b'x', 'x')", "{1.5, 'a', b'b', (1,2)}", "frozenset([frozenset([1]), (2,3)])"]
 UNSUPPORTED = ["Sub(3)", "Plain()", "[1,object()]", "{1: object()}", "(1,(2,Plain()))", "'\\ud800'", "['ok', '\\udfff']", "{Plain()}", "{'k': {1: Sub(1)}}", "Named_int(3)"]
